@@ -437,6 +437,15 @@ class StereoCondensedReactionGraph(StereoMolGraph, CondensedReactionGraph):
                     for change, stereo in stereo_change.items()
                 }
                 enantiomer.set_atom_stereo_change(**stereo_change_inverted)
+        for bond, bond_stereo_change in self._bond_stereo_change.items():
+            bond_stereo_change_inverted = {
+                change.value: stereo.invert() if stereo else None
+                for change, stereo in bond_stereo_change.items()
+            }
+            if any(bond_stereo_change_inverted.values()):
+                enantiomer.set_bond_stereo_change(
+                    **bond_stereo_change_inverted
+                )
         return enantiomer
 
     def _to_rdmol(
